@@ -97,7 +97,10 @@ fn replay_with(case: &Value, ctor: &str) -> Vec<Obs> {
         let mut own_timer_fired = false;
         history.push_str(&format!(" | {} ?- {}:", ctor, qtext));
         for call in ep["calls"].as_array().unwrap() {
-            let mode = call["mode"].as_str().unwrap();
+            let mode0 = call["mode"].as_str().unwrap();
+            // "ssolve" / "sall": the application calls stop_query() first (public API); solve() / solve_all() clear the flag
+            if mode0 == "ssolve" || mode0 == "sall" { stop_query(); }
+            let mode = match mode0 { "ssolve" => "solve", "sall" => "all", m => m };
             let fire = call["fire"].as_i64().unwrap_or(0);
             let want = &reports[ri]; ri += 1;
             debug_assert_eq!(want["ep"].as_u64().unwrap() as usize, ei + 1);
@@ -161,7 +164,7 @@ fn replay_with(case: &Value, ctor: &str) -> Vec<Obs> {
             capture::take();
             if fire > 0 { own_timer_fired = true; }
             if ok && !own_timer_fired && (wkind == "none" || (mode == "all" && !wto)) { exhausted = true; }
-            history.push_str(&format!(" {}{} -> {}", mode, if fire > 0 { format!("[timer fires before count_rules #{}]", fire) } else { String::new() }, got));
+            history.push_str(&format!(" {}{}{} -> {}", if mode0 != mode { "stop_query();" } else { "" }, mode, if fire > 0 { format!("[timer fires before count_rules #{}]", fire) } else { String::new() }, got));
             // (a call during which the query's OWN timer fired is C23's matter, not C22's)
             if constrained && !ok && first_bad.is_empty() {
                 first_bad = format!("episode {} call `{}`: reference {} / engine {}", ei + 1, mode,
